@@ -371,6 +371,15 @@ theorem inv_reg (s : Sys) (h : Inv s) (i e : Nat) : Inv (s.stepReg i e).1 := by
         · exact inv_of_same s1 _ h1 rfl rfl rfl rfl rfl (fun _ => ⟨rfl, rfl, rfl, rfl⟩)
 
 
+theorem inv_snap (s : Sys) (h : Inv s) : Inv (s.stepSnap).1 := by
+  unfold stepSnap
+  split
+  · exact h
+  · refine inv_of_same s _ h rfl rfl rfl rfl rfl (fun i => ?_)
+    show (if (s.node i).att = .rw then _ else s.node i).log = _ ∧ (if (s.node i).att = .rw then _ else s.node i).rev = _ ∧
+      (if (s.node i).att = .rw then _ else s.node i).rebuilding = _ ∧ (if (s.node i).att = .rw then _ else s.node i).att = _
+    split <;> exact ⟨rfl, rfl, rfl, rfl⟩
+
 theorem inv_step (s : Sys) (h : Inv s) (op : Op) (hh : op = .stop → s.healthy = true) : Inv (s.step op).1 := by
   cases op with
   | reg i e => exact inv_reg s h i e
@@ -380,6 +389,7 @@ theorem inv_step (s : Sys) (h : Inv s) (op : Op) (hh : op = .stop → s.healthy 
   | promote i src => exact inv_promote s h i src
   | rbdone i => exact inv_rbdone s h i
   | remove i => exact inv_remove s h i
+  | snap => exact inv_snap s h
   | stop => exact inv_stop s h (hh rfl)
 
 theorem inv_run (ops : List Op) : ∀ (s : Sys), Inv s → s.healthyRun ops = true → Inv (s.run ops) := by
@@ -399,6 +409,7 @@ theorem inv_run (ops : List Op) : ∀ (s : Sys), Inv s → s.healthyRun ops = tr
     | promote i src => exact ih _ (inv_step s h _ (fun hc => by cases hc)) hh
     | rbdone i => exact ih _ (inv_step s h _ (fun hc => by cases hc)) hh
     | remove i => exact ih _ (inv_step s h _ (fun hc => by cases hc)) hh
+    | snap => exact ih _ (inv_step s h _ (fun hc => by cases hc)) hh
 
 /-- **C09 (a volume whose replicas all stopped and came back serves every acknowledged write
     again).**  `rf` configured replicas (any `rf ≥ 1`; `n` directories with `rf / 2 + 1 ≤ n ≤ rf`), ANY
